@@ -1040,6 +1040,7 @@ def run_model_expanding(hists: List[List[list]]):
     spans: List[List[tuple]] = [[] for _ in range(n)]
     pos = [0] * n
     res: List[Any] = [None] * n
+    dirty = [True] * n
     rounds = 0
     while True:
         waiting = []
@@ -1049,15 +1050,17 @@ def run_model_expanding(hists: List[List[list]]):
                 spans[h].append((len(exp[h]), len(exp[h]) + 1, None))
                 exp[h].append(ops[pos[h]])
                 pos[h] += 1
+                dirty[h] = True
             if pos[h] < len(ops):
                 waiting.append(h)
-        todo = waiting if rounds else list(range(n))
-        if rounds and not waiting:
-            break
-        idx = [h for h in todo if exp[h]]
+        idx = [h for h in range(n) if dirty[h] and exp[h]]
         out = vlib.run_model("c08", [exp[h] for h in idx]) if idx else []
         for h, r in zip(idx, out):
             res[h] = r
+            dirty[h] = False
+        rounds += 1
+        if not waiting:
+            break
         for h in waiting:
             op = hists[h][pos[h]]
             keys = None
@@ -1073,9 +1076,7 @@ def run_model_expanding(hists: List[List[list]]):
             spans[h].append((len(exp[h]), len(exp[h]) + len(body), keys))
             exp[h] += body
             pos[h] += 1
-        rounds += 1
-        if not waiting:
-            break
+            dirty[h] = True
     return exp, spans, res, rounds
 
 
@@ -1127,11 +1128,11 @@ def run(ctx: vlib.Ctx):
     global PKG
     PKG = vlib.pmap(load_pkg_names, [None, None], procs=2)[0]
 
-    nh = ctx.budget(40, 900)
+    nh = ctx.budget(28, 900)
     nops = ctx.budget(16, 24)
     hists = [gen_history(ctx.rng, ctx.rng.randint(6, nops)) for _ in range(nh)]
     # fixed pattern histories: all reserved forms in every position of every operation
-    hists += pattern_histories()
+    hists += pattern_histories() + compound_histories()
     nprobe = {"h5": ctx.budget(4, 32), "ih5": ctx.budget(2, 16)}
     tasks = []
     for hi, ops in enumerate(hists):
@@ -1140,14 +1141,14 @@ def run(ctx: vlib.Ctx):
             if hi < nprobe[drv]:
                 probe_at = [len(ops) - 1] if ctx.quick else sorted({len(ops) - 1, ctx.rng.randrange(len(ops))})
             tasks.append({"driver": drv, "ops": ops, "probe_at": probe_at, "hist": hi,
-                          "limit": 600 if probe_at else 240})
+                          "limit": 600 if probe_at else 240, "light": ctx.quick})
     import time
     t0 = time.time()
-    mres = vlib.run_model("c08", hists)
+    mhists, spans, mres, rounds = run_model_expanding(hists)
     t1 = time.time()
     results = vlib.pmap(w_run, tasks)
     t2 = time.time()
-    xc = vlib.coq_crosscheck("c08", hists, mres, "c08", max_cases=ctx.budget(6, 20))
+    xc = vlib.coq_crosscheck("c08", mhists, mres, "c08", max_cases=ctx.budget(6, 20))
     vlib.log(f"c08: model {t1 - t0:.1f}s, implementation {t2 - t1:.1f}s, crosscheck {time.time() - t2:.1f}s; slowest tasks "
              + str(sorted(((r.get("secs"), t["driver"], len(t["ops"]), len(t["probe_at"])) for t, r in zip(tasks, results)), reverse=True)[:8]))
 
@@ -1176,7 +1177,7 @@ def run(ctx: vlib.Ctx):
         m = mres[task["hist"]]
         if model_view(m[0][-1][1]) != model_view(m[2]):
             disagreements.append({"what": "model: user_view (run ops) differs from run_u (user_ops ops)", "hist": task["hist"]})
-        dis = compare_with_model(task["ops"], m, got)
+        dis = compare_with_model(task["ops"], m, got, spans[task["hist"]])
         for x in dis[:3]:
             disagreements.append(dict(x, driver=task["driver"], hist=task["hist"]))
 
@@ -1207,7 +1208,8 @@ def run(ctx: vlib.Ctx):
                    "operation; both drivers; distinct = distinct (driver, history prefix); protocol probes: every dir() "
                    "name of wrappers/h5py/IH5/wrapt on container and sub-group x reserved forms x argument shapes")
     cov["input_distribution"] = {
-        "histories": len(hists), "ops_total": sum(len(h) for h in hists),
+        "histories": len(hists), "ops_total": sum(len(h) for h in hists), "model_rounds": rounds,
+        "model_steps_after_expansion": sum(len(h) for h in mhists),
         "op_kinds": _hist(op[0] for h in hists for op in h),
         "ops_with_reserved_path": res_ops // 2,
         "protocol": {"names_looked_up": stats["names"], "refused_by_getattr": stats["refused"],
@@ -1217,7 +1219,7 @@ def run(ctx: vlib.Ctx):
     cov["coq_crosscheck"] = xc
     cov["disagreements"] = len(disagreements)
     cov["harness_errors"] = errors[:5]
-    ctx.sample({"case": hists[0][:4], "model": mres[0][0][:1]})
+    ctx.sample({"case": mhists[0][:4], "model": mres[0][0][:1]})
     ctx.assumptions += [
         "paths are ASCII, segments other than '.' and '' are kept verbatim by HDF5",
         "one providing package per schema in the environment",
@@ -1258,6 +1260,9 @@ def describe(v: dict, drv: str) -> str:
         return f"[{d}] {v.get('method')}{shape} accepted reserved path {v.get('path', v.get('op'))!r} without raising"
     if v["kind"] in ("listing-leak", "reserved-leak"):
         return f"[{d}] {v.get('method')} at {v.get('at')} exposes reserved names {v.get('leaked')}"
+    if v["kind"] == "iteration-cut":
+        return (f"[{d}] loop {v.get('op')} over a lazily iterated group visited {v.get('visited')} but the same loop on a "
+                f"plain h5py.File visits {v.get('plain_visited')}")
     if v["kind"] == "listing-wrong":
         return f"[{d}] keys/len at {v.get('at')} = {v.get('got')} but the user children are {v.get('want')}"
     if v["kind"] == "plain-mismatch":
@@ -1289,6 +1294,33 @@ def pattern_histories() -> List[List[list]]:
                   ["detach", R, "core.person__0.1.0"]]
         h += [["copy", "/", "x", "x2", False], ["move", "/", "a", "e"], ["del", "/", "x"], ["detach", "/", "core.org__0.1.0"]]
         out.append(h)
+    return out
+
+
+def compound_histories() -> List[List[list]]:
+    """Loops that mutate the group they iterate, over children with and without metadata whose
+    names sort before ("0d", "A", "Mb") and after ("x", "y", "~t") their "metador_meta_<name>"
+    sidecars; group deletes / copies without metadata over such children; then everything is listed."""
+    pk = lambda s: PKG.get(s, "pkg__0.0.0")   # noqa: E731
+    P, O = "core.person__0.1.0", "core.org__0.1.0"
+
+    def setup(g="/g"):
+        h = [["mkgrp", "/", g]]
+        for n in ["A", "0d", "x", "y", "~t"]:
+            h.append(["set", g, n, "i:1"])
+        h += [["mkgrp", g, "Mb"], ["set", g, "Mb/B", "i:2"], ["set", g, "Mb/z", "i:3"]]
+        for n, sc in [("A", P), ("0d", P), ("0d", O), ("y", P), ("Mb", P), ("Mb/B", O)]:
+            h.append(["attach", g + "/" + n, sc, pk(sc), "{}"])
+        return h
+    out = []
+    for mode in MODES:
+        out.append(setup() + [["each_detach", "/g", P, mode], ["each_detach", "/g", O, mode], ["get", "/", "g"]])
+        out.append(setup() + [["each_del", "/g", mode], ["get", "/", "g"]])
+        out.append(setup() + [["each_move", "/g", "2", mode], ["each_detach", "/g/Mb2", O, mode], ["each_del", "/g", mode]])
+    out.append(setup() + [["copy", "/", "g", "h", True], ["copy", "/", "g", "k", False], ["del", "/", "g"],
+                          ["each_del", "/", "iter"]])
+    out.append(setup() + [["del", "/g", "Mb"], ["del", "/", "g"], ["get", "/", "/"]])
+    out.append(setup() + [["each_del", "/g/Mb", "items"], ["each_move", "/", "~", "keys"], ["each_del", "/g~", "keys"]])
     return out
 
 
